@@ -43,6 +43,12 @@ v_watchdog(unsigned secs)
 // next line is read.  The model ignores the prefix: its behaviour does not depend on descriptor numbers.
 static int v_fd0_saved = -1;
 
+// The value of errno when a library function is entered is whatever an earlier, unrelated call left there: every
+// operation starts with a stale EINTR in it (a function that reads errno before a failing call of its own has set it —
+// a retry loop testing `errno == EINTR` without looking at the result, a status taken from errno on a success path — is
+// noticed this way).
+#define V_ENTRY_ERRNO EINTR
+
 static void
 v_fd0_restore(void)
 {
@@ -88,6 +94,7 @@ v_next(FILE* in, char** argv)
       v_fd0_saved = dup(0);
       if (v_fd0_saved >= 0) close(0);
     }
+    errno = V_ENTRY_ERRNO;
     return argc;
   }
   return -1;
